@@ -19,7 +19,7 @@ REQUIRED = {"reference_value": {"quick": 400, "thorough": 2500}, "parseval": {"q
             "h1_decomposition": {"quick": 60, "thorough": 300}, "correlation": {"quick": 40, "thorough": 250}, "mean_metric": {"quick": 15, "thorough": 80}, "value_errors": {"quick": 20, "thorough": 60}}
 ASSUMPTIONS = ["O(1) amplitudes so that the absolute 1e-5 coefficient floor of the Fourier variants is inactive (events where it is active are classified outside)",
                "H1 decomposition judged on odd N or Nyquist-free pairs", "float64"]
-TIMEOUT = {"quick": 900, "thorough": 3000}
+TIMEOUT = {"quick": 2400, "thorough": 7200}
 EPS = np.finfo(float).eps
 TOL = 2e-12
 
